@@ -12,6 +12,7 @@ CONSTANTS
  Chunks = {1, 7}
  LyingSizes = FALSE
  InlineData = FALSE
+ Conc = 64
 INIT GInit
 NEXT GNext
 INVARIANTS Emit
